@@ -334,6 +334,16 @@ class Sim:
                 if len(runnable) > self.max_runnable:
                     self.max_runnable = len(runnable)
                 t = runnable[self._choose(len(runnable))]
+                kp = self.faults.get("kill_task")
+                if kp is not None and t.name.startswith(kp[0]):
+                    seen = self.next_id("kill_task_seen")
+                    if seen == kp[1]:
+                        # the simulated process dies from a signal right here
+                        fired = self.faults.setdefault("_fired", {})
+                        fired["kill_task"] = fired.get("kill_task", 0) + 1
+                        self.log.append(("note", "fault", "SIGKILL", t.name, t.op))
+                        self.kill(t)
+                        continue
                 self.steps += 1
                 self.log.append((self.steps, t.name, t.op))
                 t.cond = None
